@@ -139,7 +139,20 @@ class CreateScaling(Unit):
             k0 = r.choice([0, 0, -3, -6, 3])
             xs = [r.choice([0.0, 1.0, -1.0, 3.0, 5.0, -7.0]) * 2.0 ** (k0 + r.randint(-2, 2)) for _ in range(n)]
             ys = [r.choice([0.0, 1.0, -1.0, 2.0]) for _ in range(m)]
-            cases.append({"kind": k % 3, "spec": spec.to_json(), "xs": xs, "ys": ys, "fmt": r.choice(["coo", "csr", "csc"])})
+            case = {"kind": k % 3, "spec": spec.to_json(), "xs": xs, "ys": ys, "fmt": r.choice(["coo", "csr", "csc"])}
+            if k % 12 == 9:
+                # Single precision, nominal values a hair below a power of two (binary64 numbers that round UP to the
+                # power in binary32): the scaling is computed from the scaling point as given.  Affine rows keep c(xs) exact.
+                case["kind"] = 0
+                case["single"] = True
+                def below(v):
+                    import math
+                    if v == 0.0:
+                        return 1.0 - 2.0 ** -30
+                    return v * (1.0 - 2.0 ** -30) if math.frexp(abs(v))[0] == 0.5 else v
+                case["xs"] = [below(v) for v in xs]
+                case["spec"]["A"] = [[[0.0] * n for _ in range(n)] for _ in range(m)]
+            cases.append(case)
         return cases
 
     def impl(self, case):
@@ -155,7 +168,11 @@ class CreateScaling(Unit):
             prob.cons = undefined
             prob.cons_jac = undefined
         st = [ScalingType.Nominal, ScalingType.GradJac, ScalingType.KKT][case["kind"]]
-        params = Params(scaling_type=st, scaling_primal=np.array(case["xs"], dtype=float), scaling_dual=np.array(case["ys"], dtype=float))
+        kw = {}
+        if case.get("single"):
+            from pygradflow.params import Precision
+            kw["precision"] = Precision.Single
+        params = Params(scaling_type=st, scaling_primal=np.array(case["xs"], dtype=float), scaling_dual=np.array(case["ys"], dtype=float), **kw)
         try:
             s = Solver(prob, params).transform.scaling
         except Exception as e:
